@@ -181,7 +181,7 @@ func (m *M) labels32(loc []bitcoin.Hash32) []string {
 	return r
 }
 
-const ruleC19splits = "a straight chain of 20..140 headers (optionally with 1..2 side branches) on which two synthetic foreign splits and the required split are installed at drawn heights with their before-hashes ON our chain (as on mainnet; verif hook VerifSetSplits), then the chain is extended one header at a time up to 500 more; at every tip and for max in {1,2,3,4,5,10,20,50}: every locator hash is a best-chain header, a split fork point or the base of a side branch; no hash appears twice; best-chain hashes newest first beginning with the tip's parent; at most max of them besides split fork points and branch bases; non-trivial = tip above both splits (back-off steps cross the split heights); distinct = (split heights, side branches, span)"
+const ruleC19splits = "the verify-only locator of the configuration is exactly the distinct split fork points, newest first, each once; a straight chain of 20..140 headers (optionally with 1..2 side branches) on which two synthetic foreign splits and the required split are installed at drawn heights with their before-hashes ON our chain (as on mainnet; verif hook VerifSetSplits), then the chain is extended one header at a time up to 500 more; at every tip and for max in {1,2,3,4,5,10,20,50}: every locator hash is a best-chain header, a split fork point or the base of a side branch; no hash appears twice; best-chain hashes newest first beginning with the tip's parent; at most max of them besides split fork points and branch bases; non-trivial = tip above both splits (back-off steps cross the split heights); distinct = (split heights, side branches, span)"
 
 func TestProp_C19_splits(t *testing.T) {
 	col := evid.For("C19", "splits", ruleC19splits)
@@ -211,6 +211,16 @@ func TestProp_C19_splits(t *testing.T) {
 		repo.DisableDifficulty()
 		repo.InitializeWithGenesis()
 		repo.VerifSetSplits(splits, required)
+		// verify-only locator of this network configuration: exactly the distinct split fork
+		// points (the required split shares its fork point with a listed split, as on mainnet),
+		// newest first, each once
+		vo, err := repo.GetVerifyOnlyLocatorHashes(ctx)
+		if err != nil {
+			t.Fatalf("GetVerifyOnlyLocatorHashes: %s", err)
+		}
+		if len(vo) != 2 || model.Hash(vo[0]) != raws[s2-1].Hash() || model.Hash(vo[1]) != raws[s1-1].Hash() {
+			t.Fatalf("verify-only locator %v, want the fork points at heights %d and %d once each, newest first", vo, s2-1, s1-1)
+		}
 		splitBefore := map[model.Hash]bool{raws[s1-1].Hash(): true, raws[s2-1].Hash(): true}
 		height := map[model.Hash]int{}
 		for i, r := range raws {
